@@ -28,13 +28,14 @@ vars == <<tx, last>>
 
 Init == tx \in {t \in Txs : WellEra(t)} /\ last = [op |-> "decode"]
 
-CallConsumes   == last' = [op |-> "consumes", res |-> Consumes(tx)] /\ UNCHANGED tx
-CallProduces   == last' = [op |-> "produces", res |-> Produces(tx)] /\ UNCHANGED tx
-CallProducesAt == \E i \in 0..(MaxOut + 1) : last' = [op |-> "produces_at", i |-> i, res |-> ProducesAt(tx, i)] /\ UNCHANGED tx
-CallSortedSet  == last' = [op |-> "inputs_sorted_set", res |-> SortedSet(tx)] /\ UNCHANGED tx
-
 \* the observers are pure: each is explored once per decoded transaction
-Next == last.op = "decode" /\ (CallConsumes \/ CallProduces \/ CallProducesAt \/ CallSortedSet)
+Fresh == last.op = "decode"
+CallConsumes   == Fresh /\ last' = [op |-> "consumes", res |-> Consumes(tx)] /\ UNCHANGED tx
+CallProduces   == Fresh /\ last' = [op |-> "produces", res |-> Produces(tx)] /\ UNCHANGED tx
+CallProducesAt == Fresh /\ \E i \in 0..(MaxOut + 1) : last' = [op |-> "produces_at", i |-> i, res |-> ProducesAt(tx, i)] /\ UNCHANGED tx
+CallSortedSet  == Fresh /\ last' = [op |-> "inputs_sorted_set", res |-> SortedSet(tx)] /\ UNCHANGED tx
+
+Next == CallConsumes \/ CallProduces \/ CallProducesAt \/ CallSortedSet
 
 Laws == LawConsumes(tx) /\ LawSorted(tx) /\ LawIndices(tx) /\ LawInvalid(tx) /\ LawAt(tx)
 
